@@ -52,6 +52,11 @@ def binding_obligations(ip, ctx, base, run, kind):
     nreads = run["reads"] if isinstance(run["reads"], int) else len(run["reads"])
     if run["outcome"][0] == "ret":
         obs.append(Obligation(base + "/one_reply_per_frame", ctx, nreads == len(writes)))
+    # however the call ends, no frame is left unanswered on a connection that stays open: the reply would be taken for the
+    # answer to the next operation's login and every later session id would be the previous operation's
+    closed = any(e[0] == "close" for e in ctx.ghost.events)
+    obs.append(Obligation(base + "/no_unread_reply_left_on_the_open_connection", ctx, nreads == len(writes) or closed,
+                          note=f"{len(writes)} frames written, {nreads} replies read"))
     obs.append(Obligation(base + "/assigns_nothing", ctx, _frame_ok(ctx)[0],
                           note=str([(repr(o), a) for o, a in ctx.ghost.heap_writes][:3])))
     return obs
@@ -94,6 +99,8 @@ def units(tier):
 
     def canary(ip, ctx):
         run = run_op(ip, ctx, ops()["stop"], 0, ("ge", 12), ("ge", 0))
+        if len(run["writes"]) < 2:
+            return []
         w = run["writes"][1]
         return [Obligation(PROP + "/_canary/session_is_zero", ctx, ip.equals(ip.getslice(w, 8, 12, ctx), b"\x00\x00\x00\x00", ctx))]
     u["_canary"] = Unit("_canary", PROP, canary)
